@@ -556,35 +556,42 @@ def regenerate(env, gen, rnd):
 
 # ---------------------------------------------------------------------------------------------------
 def selftest_traces(traces):
-    """recorded traces with one corrupted field / one dropped event: all must be rejected"""
+    """recorded traces with one corrupted field / one dropped event: all must be rejected.
+    -> [(trace, id of the recorded trace it was made from, clause expected when that one is accepted)]"""
     by = {t["id"]: t for t in traces}
+
+    def zlp_dropped(a):
+        del a["ev"][[i for i, e in enumerate(a["ev"]) if e["e"] == "bw" and e["n"] == 0][0]]
+
+    def bw_length(a):
+        [e for e in a["ev"] if e["e"] == "bw"][0]["n"] -= 1
+
+    def rret_hash(a):
+        [e for e in a["ev"] if e["e"] == "rret"][0]["h"] ^= 1
+
+    def tty_byte(a):
+        [e for e in a["ev"] if e["e"] == "rret"][0]["b"][17] ^= 4
+
+    def tty_overread(a):
+        [e for e in a["ev"] if e["e"] == "sr"][1]["n"] += 1
+
+    def tty_noflush(a):
+        a["ev"] = [e for e in a["ev"] if e["e"] != "flush"]
+
     st = []
-    a = json.loads(json.dumps(strip(by["usb/w/op64/n128"])))
-    a["id"] = "selftest/zlp-dropped"
-    k = [i for i, e in enumerate(a["ev"]) if e["e"] == "bw" and e["n"] == 0][0]
-    del a["ev"][k]
-    st.append((a, "wret:zlp-missing"))
-    b = json.loads(json.dumps(strip(by["usb/w/op64/n65"])))
-    b["id"] = "selftest/bw-length"
-    [e for e in b["ev"] if e["e"] == "bw"][0]["n"] -= 1
-    st.append((b, "bw:data"))
-    c = json.loads(json.dumps(strip(by["usb/r/n65"])))
-    c["id"] = "selftest/rret-hash"
-    [e for e in c["ev"] if e["e"] == "rret"][0]["h"] ^= 1
-    st.append((c, "rret:data"))
-    d = json.loads(json.dumps(strip(by["tty/r/std200"])))
-    d["id"] = "selftest/tty-byte"
-    [e for e in d["ev"] if e["e"] == "rret"][0]["b"][17] ^= 4
-    st.append((d, "rret:data"))
-    f = json.loads(json.dumps(strip(by["tty/r/std200"])))
-    f["id"] = "selftest/tty-overread"
-    body = [e for e in f["ev"] if e["e"] == "sr"][1]
-    body["n"] += 1
-    st.append((f, "sr:n"))
-    g = json.loads(json.dumps(strip(by["tty/w/n9"])))
-    g["id"] = "selftest/tty-noflush"
-    g["ev"] = [e for e in g["ev"] if e["e"] != "flush"]
-    st.append((g, "sw:unexpected"))
+    for name, base, clause, fn in (("zlp-dropped", "usb/w/op64/n128", "wret:zlp-missing", zlp_dropped),
+                                   ("bw-length", "usb/w/op64/n65", "bw:data", bw_length),
+                                   ("rret-hash", "usb/r/n65", "rret:data", rret_hash),
+                                   ("tty-byte", "tty/r/std200", "rret:data", tty_byte),
+                                   ("tty-overread", "tty/r/std200", "sr:n", tty_overread),
+                                   ("tty-noflush", "tty/w/n9", "sw:unexpected", tty_noflush)):
+        a = json.loads(json.dumps(strip(by[base])))
+        a["id"] = "selftest/" + name
+        try:
+            fn(a)
+        except (IndexError, KeyError):
+            continue                      # the recorded execution is already wrong in this very place: reported as such
+        st.append((a, base, clause))
     return st
 
 
@@ -605,11 +612,11 @@ def stage(ck, tier, seed):
                      "the model of the transport violates its own property: %s" % (r.error_trace or "")[-2:])
     st = selftest_traces(traces)
     verdicts, stats = tlc.validate_traces("Trace_Transport.tla", "Trace_Transport.cfg", PID + "/transport",
-                                          [strip(t) for t in traces] + [t for t, _ in st], shards=4 if quick else 12,
+                                          [strip(t) for t in traces] + [t for t, _, _ in st], shards=4 if quick else 12,
                                           timeout=600 if quick else 2400)
-    for t, clause in st:
+    for t, base, clause in st:
         v = verdicts[t["id"]]
-        if v[0] != "STUCK" or v[3][0] != clause:
+        if v[0] != "STUCK" or (verdicts[base][0] == "ACCEPT" and v[3][0] != clause):
             raise tlc.TLCError("binding vacuous: corrupted trace %s not rejected with %s: %s" % (t["id"], clause, v))
     # traces that stop at the known finding are walked to their end with the reader rule of the code as it is
     twins = []
@@ -652,7 +659,7 @@ def stage(ck, tier, seed):
     ck.cover(transport_mc_states=mc["states"], transport_mc_transitions=mc["transitions"],
              transport_traces_validated=len(traces), transport_trace_events=nev, transport_trace_states=stats["states"],
              transport_case_classes=len(classes), transport_witnesses=mc["witnesses"], transport_mc_runs=mc["runs"],
-             transport_selftest="%d corrupted traces rejected (%s)" % (len(st), ", ".join(c for _, c in st)))
+             transport_selftest="%d corrupted traces rejected (%s)" % (len(st), ", ".join(c for _, _, c in st)))
     ck.sample(dict(trace=traces[0]["id"], ev=traces[0]["ev"][:4]))
     return len(traces), nev, len(classes)
 
